@@ -11,7 +11,9 @@
 //	space B: every Version with <=2 arbitrary (overlapping allowed) files in L0 (real L0Organizer /
 //	         sublevels), <=1 file in L5 and <=2 non-overlapping files in L6,
 //
-// over the user keys a..d (quick) / a..e (thorough); a file's bounds are [x,y] (inclusive largest) or
+// over 4 and 5 user keys (quick: 3 keys for both spaces, then 4 keys for space A with <=1 file in L4
+// and <=4 files in total; the plans and their sizes are listed in TestCheck and in the evidence note "scope"); a
+// file's bounds are [x,y] (inclusive largest) or
 // [x,y) (largest = exclusive sentinel: a RANGEDEL end, a range-key end of a range-key-only table, or
 // a range-key end of a table that also has a point key).
 //
@@ -34,6 +36,7 @@ import (
 	"fmt"
 	"runtime"
 	"runtime/debug"
+	"sort"
 	"strings"
 	"sync"
 	"sync/atomic"
@@ -395,8 +398,36 @@ type stats struct {
 	evals, trans int
 	outcomes     [nOutcomes]int64
 	fails        []fail
+	nfiles, idx  int          // of the layout being checked
+	more         []classCount // failures of a class beyond the first one of this layout: only counted
 	nontrivial   bool
 }
+
+type classCount struct {
+	class string
+	n     int64
+}
+
+// first reports whether this is the layout's first failure of the class (only that one gets a
+// description and a replay case; on a broken tree a layout fails dozens of checks at once).
+func (st *stats) first(class string) bool {
+	for i := range st.more {
+		if st.more[i].class == class {
+			st.more[i].n++
+			return false
+		}
+	}
+	if w, ok := vioWorst.Load(class); ok && int64(st.nfiles)<<32|int64(st.idx) > w.(*atomic.Int64).Load() {
+		// five smaller counterexamples of this class are already held: only count this one
+		st.more = append(st.more, classCount{class, 1})
+		return false
+	}
+	st.more = append(st.more, classCount{class, 0})
+	return true
+}
+
+// vioWorst: class -> (size<<32 | idx) of the largest of the five counterexamples held, once five are held.
+var vioWorst sync.Map
 
 const (
 	oExact = iota // Part 1: result == union of the whole bounds of the files overlapping the query
@@ -487,11 +518,15 @@ func (l *lsm) checkInuse(w *wctx, st *stats, level, maxLevel, s, e int) {
 	}
 	r, problem := structure(got)
 	if problem != "" {
-		st.fails = append(st.fails, fail{"inuse-ranges-malformed", what() + ": " + problem, mkCase()})
+		if st.first("inuse-ranges-malformed") {
+			st.fails = append(st.fails, fail{"inuse-ranges-malformed", what() + ": " + problem, mkCase()})
+		}
 		return
 	}
 	if miss := must &^ r; miss != 0 {
-		st.fails = append(st.fails, fail{"inuse-missing-key", what() + fmt.Sprintf(": the files of L%d..L%d contain %s inside the query range, of which %s is in no returned range (k+ = keys strictly between k and the next letter)", level, maxLevel, maskString(must), maskString(miss)), mkCase()})
+		if st.first("inuse-missing-key") {
+			st.fails = append(st.fails, fail{"inuse-missing-key", what() + fmt.Sprintf(": the files of L%d..L%d contain %s inside the query range, of which %s is in no returned range (k+ = keys strictly between k and the next letter)", level, maxLevel, maskString(must), maskString(miss)), mkCase()})
+		}
 		return
 	}
 	switch {
@@ -547,12 +582,16 @@ func (l *lsm) checkElision(w *wctx, st *stats, outLevel int, b shape) {
 	}
 	// ElidesEverything makes the compaction the bottommost data layer (seqnum zeroing).
 	if (dels.ElidesEverything() || rks.ElidesEverything()) && below&bm != 0 {
-		st.fails = append(st.fails, fail{"elides-everything-over-live-data", what() + fmt.Sprintf(": claims that every tombstone can be elided (bottommost data layer), but levels L%d..L6 contain %s inside the compaction bounds", startLevel, maskString(below&bm)), mkCase()})
+		if st.first("elides-everything-over-live-data") {
+			st.fails = append(st.fails, fail{"elides-everything-over-live-data", what() + fmt.Sprintf(": claims that every tombstone can be elided (bottommost data layer), but levels L%d..L6 contain %s inside the compaction bounds", startLevel, maskString(below&bm)), mkCase()})
+		}
 		return
 	}
 	if rs := dels.VerifInUseRanges(); len(rs) > 0 {
 		if _, problem := structure(rs); problem != "" {
-			st.fails = append(st.fails, fail{"inuse-ranges-malformed", what() + ": " + problem, mkCase()})
+			if st.first("inuse-ranges-malformed") {
+				st.fails = append(st.fails, fail{"inuse-ranges-malformed", what() + ": " + problem, mkCase()})
+			}
 			return
 		}
 	}
@@ -575,7 +614,9 @@ func (l *lsm) checkElision(w *wctx, st *stats, outLevel int, b shape) {
 			if !e1 {
 				how = "asked after the smaller keys of the bounds"
 			}
-			st.fails = append(st.fails, fail{"elide-point-tombstone-over-live-key", what() + fmt.Sprintf(": a DEL/SINGLEDEL of %q (%s) would be elided although a file in L%d..L6 contains %q: the older value resurfaces", keyB[k], how, startLevel, keyB[k]), mkCase()})
+			if st.first("elide-point-tombstone-over-live-key") {
+				st.fails = append(st.fails, fail{"elide-point-tombstone-over-live-key", what() + fmt.Sprintf(": a DEL/SINGLEDEL of %q (%s) would be elided although a file in L%d..L6 contains %q: the older value resurfaces", keyB[k], how, startLevel, keyB[k]), mkCase()})
+			}
 			return
 		}
 		switch {
@@ -605,7 +646,9 @@ func (l *lsm) checkElision(w *wctx, st *stats, outLevel int, b shape) {
 				if !e1 {
 					which = "RANGEKEYDEL/UNSET"
 				}
-				st.fails = append(st.fails, fail{"elide-range-tombstone-over-live-key", what() + fmt.Sprintf(": a %s [%s,%s) would be elided although files in L%d..L6 contain %s inside it", which, keyB[s], keyB[e], startLevel, maskString(below&sm)), mkCase()})
+				if st.first("elide-range-tombstone-over-live-key") {
+					st.fails = append(st.fails, fail{"elide-range-tombstone-over-live-key", what() + fmt.Sprintf(": a %s [%s,%s) would be elided although files in L%d..L6 contain %s inside it", which, keyB[s], keyB[e], startLevel, maskString(below&sm)), mkCase()})
+				}
 				return
 			}
 			switch {
@@ -635,7 +678,9 @@ func (l *lsm) checkElision(w *wctx, st *stats, outLevel int, b shape) {
 				if !e1 {
 					how = "RangeDelSpanCompactor.Compact"
 				}
-				st.fails = append(st.fails, fail{"elide-range-tombstone-over-live-key", what() + fmt.Sprintf(": the fragment RANGEDEL [%s,%s) (%s) would be elided although files in L%d..L6 contain %s inside it", keyB[s], keyB[s+1], how, startLevel, maskString(below&sm)), mkCase()})
+				if st.first("elide-range-tombstone-over-live-key") {
+					st.fails = append(st.fails, fail{"elide-range-tombstone-over-live-key", what() + fmt.Sprintf(": the fragment RANGEDEL [%s,%s) (%s) would be elided although files in L%d..L6 contain %s inside it", keyB[s], keyB[s+1], how, startLevel, maskString(below&sm)), mkCase()})
+				}
 				return
 			}
 		}
@@ -687,15 +732,71 @@ func (l *lsm) runAll(w *wctx, st *stats, levels []int, outLevels []int, shapes [
 // ---------------------------------------------------------------------------------------------
 // driver
 
-var vioCount sync.Map // class -> *atomic.Int64
+// Violations are collected and reported smallest layout first (fewest files, then enumeration
+// order), at most 5 per class: with 16 workers the first one found is not the smallest one.
+type pending struct {
+	size, idx int
+	f         fail
+}
 
-func report(c *vlib.Ctx, st *stats) {
+var (
+	vioMu      sync.Mutex
+	vioBest    = map[string][]pending{}
+	vioTotal   = map[string]int64{}
+	vioEmitted = map[string]int{}
+)
+
+func report(st *stats, idx int) {
+	vioMu.Lock()
+	defer vioMu.Unlock()
+	for _, m := range st.more {
+		vioTotal[m.class] += m.n
+	}
 	for _, f := range st.fails {
-		v, _ := vioCount.LoadOrStore(f.class, new(atomic.Int64))
-		if v.(*atomic.Int64).Add(1) > 40 {
-			continue // vlib keeps 5 artefacts per class; do not serialise millions of cases on a broken tree
+		vioTotal[f.class]++
+		p := pending{len(f.cs.Files), idx, f}
+		l := vioBest[f.class]
+		pos := sort.Search(len(l), func(i int) bool {
+			return l[i].size > p.size || (l[i].size == p.size && l[i].idx > p.idx)
+		})
+		if pos >= 5 {
+			continue
 		}
-		c.Violation(f.class, f.desc, f.cs)
+		l = append(l, pending{})
+		copy(l[pos+1:], l[pos:])
+		l[pos] = p
+		if len(l) > 5 {
+			l = l[:5]
+		}
+		vioBest[f.class] = l
+		if len(l) == 5 {
+			w, _ := vioWorst.LoadOrStore(f.class, new(atomic.Int64))
+			w.(*atomic.Int64).Store(int64(l[4].size)<<32 | int64(l[4].idx))
+		}
+	}
+}
+
+// emit hands the collected violations to vlib (called after every plan).
+func emit(c *vlib.Ctx) {
+	vioMu.Lock()
+	defer vioMu.Unlock()
+	classes := make([]string, 0, len(vioBest))
+	for k := range vioBest {
+		classes = append(classes, k)
+	}
+	sort.Strings(classes)
+	for _, k := range classes {
+		for _, p := range vioBest[k] {
+			if vioEmitted[k] >= 5 {
+				break
+			}
+			vioEmitted[k]++
+			c.Violation(p.f.class, p.f.desc, p.f.cs)
+		}
+		delete(vioBest, k)
+	}
+	for k, n := range vioTotal {
+		c.Note("violating_checks_"+k, n)
 	}
 }
 
@@ -738,7 +839,8 @@ func replay(c *vlib.Ctx, cs Case) {
 	if len(st.fails) == 0 {
 		fmt.Printf("replay: ok (%d checks)\n", st.evals)
 	}
-	report(c, st)
+	report(st, 0)
+	emit(c)
 	c.Eval(max(st.evals, 1))
 	c.Trans(max(st.trans, 1))
 	c.State(1)
@@ -766,8 +868,10 @@ func TestCheck(t *testing.T) {
 		}
 		type plan struct {
 			name      string
-			n, fl     int
+			n         int
+			fl        []int // flavours (rotations of the realisation of exclusive ends) to run
 			dims      []levelDim
+			maxTotal  int // layouts with more files in total are outside the plan (0 = no limit)
 			qLevels   []int
 			outLevels []int
 		}
@@ -775,15 +879,20 @@ func TestCheck(t *testing.T) {
 		var plans []plan
 		if !c.Thorough() {
 			plans = []plan{
-				{"A4q", 4, 1, []levelDim{{4, 1}, {5, 2}, {6, 2}}, lowQ, lowOut},
-				{"B4q", 4, 1, []levelDim{{0, 2}, {5, 1}, {6, 1}}, []int{0}, []int{0}},
+				// smallest spaces first: on a starved machine the 3-key plans still complete
+				{"A3q", 3, []int{0}, []levelDim{{4, 2}, {5, 2}, {6, 2}}, 0, lowQ, lowOut},
+				{"B3q", 3, []int{0}, []levelDim{{0, 2}, {5, 1}, {6, 2}}, 0, []int{0}, []int{0}},
+				{"A4q", 4, []int{0}, []levelDim{{4, 1}, {5, 2}, {6, 2}}, 4, lowQ, lowOut},
 			}
 		} else {
 			plans = []plan{
-				{"A4", 4, 3, []levelDim{{4, 2}, {5, 2}, {6, 2}}, lowQ, lowOut},
-				{"B4", 4, 3, []levelDim{{0, 2}, {5, 1}, {6, 2}}, []int{0}, []int{0}},
-				{"A5", 5, 1, []levelDim{{4, 1}, {5, 2}, {6, 2}}, lowQ, lowOut},
-				{"B5", 5, 1, []levelDim{{0, 2}, {5, 1}, {6, 1}}, []int{0}, []int{0}},
+				// every space in one flavour first, the other two rotations of the 4-key spaces last
+				{"A4", 4, []int{0}, []levelDim{{4, 2}, {5, 2}, {6, 2}}, 0, lowQ, lowOut},
+				{"B4", 4, []int{0}, []levelDim{{0, 2}, {5, 1}, {6, 2}}, 0, []int{0}, []int{0}},
+				{"A5", 5, []int{0}, []levelDim{{4, 1}, {5, 2}, {6, 2}}, 0, lowQ, lowOut},
+				{"B5", 5, []int{0}, []levelDim{{0, 2}, {5, 1}, {6, 1}}, 0, []int{0}, []int{0}},
+				{"A4-rot", 4, []int{1, 2}, []levelDim{{4, 2}, {5, 2}, {6, 2}}, 0, lowQ, lowOut},
+				{"B4-rot", 4, []int{1, 2}, []levelDim{{0, 2}, {5, 1}, {6, 2}}, 0, []int{0}, []int{0}},
 			}
 		}
 
@@ -805,7 +914,7 @@ func TestCheck(t *testing.T) {
 			n := pl.n
 			shapes := genShapes(n)
 			sets := make([][]lset, len(pl.dims))
-			total := pl.fl
+			total := len(pl.fl)
 			var dimDesc []string
 			for d, dim := range pl.dims {
 				sets[d] = genLevelSets(shapes, dim.maxFiles, dim.level == 0)
@@ -820,30 +929,46 @@ func TestCheck(t *testing.T) {
 					nq += manifest.NumLevels - ql
 				}
 			}
-			desc := fmt.Sprintf("plan %s: %d keys, %d shapes, %d flavour(s), %s = %d layouts x (%d (level,maxLevel) pairs x %d key ranges + %d output levels x %d compaction bounds)",
-				pl.name, n, len(shapes), pl.fl, strings.Join(dimDesc, ", "), total, nq, n*(n+1)/2, len(pl.outLevels), len(shapes))
+			// decode: the last level varies fastest; the empty set and single files come first
+			decode := func(idx int) (pick [4]int, flavour, nfiles int) {
+				r := idx
+				for d := len(pl.dims) - 1; d >= 0; d-- {
+					pick[d] = r % len(sets[d])
+					r /= len(sets[d])
+					nfiles += sets[d][pick[d]].n
+				}
+				return pick, r, nfiles
+			}
+			nLayouts := total
+			if pl.maxTotal > 0 {
+				nLayouts = 0
+				for idx := 0; idx < total; idx++ {
+					if _, _, nf := decode(idx); nf <= pl.maxTotal {
+						nLayouts++
+					}
+				}
+				dimDesc = append(dimDesc, fmt.Sprintf("<=%d files in total", pl.maxTotal))
+			}
+			desc := fmt.Sprintf("plan %s: %d keys, %d shapes, flavour(s) %v, %s = %d layouts x (%d (level,maxLevel) pairs x %d key ranges + %d output levels x %d compaction bounds)",
+				pl.name, n, len(shapes), pl.fl, strings.Join(dimDesc, ", "), nLayouts, nq, n*(n+1)/2, len(pl.outLevels), len(shapes))
 			if stopped {
 				scope = append(scope, desc+" NOT RUN (budget)")
 				continue
 			}
 			done, complete := c.EachNamed(pl.name, total, func(idx int) {
-				// decode: the last level varies fastest; the empty set and single files come first
 				var buf [8]mfile
 				fs := buf[:0]
-				r := idx
-				var pick [4]int
-				for d := len(pl.dims) - 1; d >= 0; d-- {
-					pick[d] = r % len(sets[d])
-					r /= len(sets[d])
+				pick, flavour, nfiles := decode(idx)
+				if pl.maxTotal > 0 && nfiles > pl.maxTotal {
+					return
 				}
-				flavour := r
 				for d, dim := range pl.dims {
 					ls := sets[d][pick[d]]
 					for j := 0; j < ls.n; j++ {
 						sh := shapes[ls.f[j]]
 						kind := kindPoint
 						if sh.Excl {
-							kind = exclKind(ls.f[j]+j+dim.level, flavour)
+							kind = exclKind(ls.f[j]+j+dim.level, pl.fl[flavour])
 						}
 						fs = append(fs, mfile{level: dim.level, sh: sh, kind: kind, slot: j, m: sh.mask()})
 					}
@@ -860,7 +985,7 @@ func TestCheck(t *testing.T) {
 					return
 				}
 				st := &w.st
-				*st = stats{fails: st.fails[:0]}
+				*st = stats{fails: st.fails[:0], more: st.more[:0], nfiles: len(fs), idx: idx}
 				l.runAll(w, st, pl.qLevels, pl.outLevels, shapes)
 				c.Eval(st.evals)
 				c.Trans(st.trans + 1)
@@ -878,15 +1003,16 @@ func TestCheck(t *testing.T) {
 					c.Nontrivial(h)
 				}
 				if len(st.fails) > 0 {
-					report(c, st)
+					report(st, idx)
 				}
 				if idx%20011 == 4999 {
 					c.Sample(Case{Keys: n, Files: l.specs(), Layout: l.layout()})
 				}
 			})
+			emit(c)
 			if !complete {
 				stopped = true
-				c.Incomplete(fmt.Sprintf("budget expired in plan %s after %d of %d layouts (every layout that was started was checked for all its queries and compactions; earlier plans are complete, later plans were not run)", pl.name, done, total))
+				c.Incomplete(fmt.Sprintf("budget expired in plan %s after %d of %d enumeration indices (every layout that was started was checked for all its queries and compactions; earlier plans are complete, later plans were not run)", pl.name, done, total))
 				desc += fmt.Sprintf(" INCOMPLETE (%d done)", done)
 			}
 			scope = append(scope, desc)
